@@ -12,10 +12,10 @@ import (
 // witness exists before another creator has any descendant of its previous witness)
 
 type playT struct {
-	to           int
-	index        int
-	self, other  string
-	name         string
+	to          int
+	index       int
+	self, other string
+	name        string
 }
 
 func buildPlays(n int, firsts []string, plays []playT) []dag.Ev {
